@@ -393,6 +393,124 @@ def comparison_semantics(repo, handlers, mangling, mnemonic):
     return tuple(out), None
 
 
+def rnd_memory(ctx):
+    """RND(0) repeats the last number delivered.  Necessary for that: on
+    every path of RngDevice._exec_rnd the number handed to the program is
+    the one remembered in last_rnd afterwards."""
+    import ast
+    from ..absint import (AbsObj, Unk, Interp, Closure, Env, PathEnd,
+                          Raised, Unmodelled, explore)
+    repo = ctx.repo
+    rule = 'C01.rnd-remembers-the-number-it-delivered'
+    ctx.rule(rule, 'on every path of RngDevice._exec_rnd (argument <0, =0, '
+             '>0; with and without an earlier number) the value pushed is '
+             'the object stored in self.last_rnd when the handler returns '
+             '(abstract run with opaque numbers)')
+    f = repo.func('qvm.machine', 'RngDevice._exec_rnd')
+
+    class Tok(AbsObj):
+        def __init__(self, name):
+            self.name = name
+
+        def eq_(self, other):
+            return other is self
+
+        def __repr__(self):
+            return self.name
+
+    class Fn(AbsObj):
+        is_callable = True
+
+        def __init__(self, fn):
+            self.fn = fn
+
+        def call_(self, args, kwargs, interp):
+            return self.fn(*args, **kwargs)
+
+    class Hooks:
+        def global_name(self, modname, name, interp):
+            if name == 'CellType':
+                class NS(AbsObj):
+                    def getattr_(self, a, interp):
+                        return f'CellType.{a}'
+                return NS()
+            raise KeyError(name)
+
+        def on_unknown_call(self, f, args, kwargs, node, interp):
+            raise Unmodelled('unknown call')
+    n = 0
+    for initial in (None, 'old'):
+        def run(oracle, initial=initial):
+            pushed = []
+            counter = [0]
+            attrs = {'last_rnd': Tok('old') if initial else None}
+
+            def fresh(*a):
+                counter[0] += 1
+                return Tok(f'new{counter[0]}')
+
+            class Impl(AbsObj):
+                def getattr_(self, a, interp):
+                    if a.startswith('rng_'):
+                        return Fn(fresh)
+                    raise Unmodelled(f'impl.{a}')
+
+            class Cpu(AbsObj):
+                def getattr_(self, a, interp):
+                    if a == 'push':
+                        return Fn(lambda t, v: pushed.append(v))
+                    raise Unmodelled(f'cpu.{a}')
+
+            class Self(AbsObj):
+                def getattr_(self, a, interp):
+                    if a == '_get_arg_from_stack':
+                        return Fn(lambda *x: Unk('arg', True))
+                    if a == 'impl':
+                        return Impl()
+                    if a == 'cpu':
+                        return Cpu()
+                    if a in attrs:
+                        return attrs[a]
+                    raise Unmodelled(f'self.{a}')
+
+                def setattr_(self, a, v, interp):
+                    attrs[a] = v
+            interp = Interp(Hooks(), oracle)
+            clo = Closure(f.node, Env(None, globals_='qvm.machine'),
+                          name='_exec_rnd')
+            try:
+                clo.call_([Self()], {}, interp)
+            except (PathEnd, Raised) as e:
+                return ('end', str(e))
+            return ('ok', pushed, attrs.get('last_rnd'))
+        try:
+            res = explore(run, 200)
+        except Unmodelled as u:
+            ctx.observe(f'{f.file}:RngDevice._exec_rnd: not modelled ({u}); '
+                        f'undecided')
+            ctx.instance(rule, f'{f.file}:RngDevice._exec_rnd:'
+                               f'initial={initial}', nontrivial=False)
+            continue
+        for choices, r in res:
+            if r[0] != 'ok':
+                continue
+            n += 1
+            construct = (f'{f.file}:RngDevice._exec_rnd:initial={initial}:'
+                         f'path{"".join(map(str, choices))}')
+            pushed, last = r[1], r[2]
+            ok = len(pushed) == 1 and pushed[0] is last
+            ctx.instance(rule, construct, sample={'pushed': repr(pushed),
+                                                  'last_rnd': repr(last)})
+            if not ok:
+                ctx.finding(rule, f'{f.file}:RngDevice._exec_rnd:'
+                            f'delivered-not-remembered',
+                            f'on a path of _exec_rnd the program receives '
+                            f'{pushed} while last_rnd ends as {last}: a '
+                            f'following RND(0) does not repeat the number '
+                            f'just delivered', f.file, f.line)
+    ctx.floor('paths of _exec_rnd analysed', n, 4)
+
+
 def run(ctx):
     ctx.clauses = [
         'operator/comparison translation chain token -> Operator -> '
@@ -413,6 +531,7 @@ def run(ctx):
         'of 125 sample points (integers and floats)',
     ]
     chain_rules(ctx, 'C01')
+    rnd_memory(ctx)
     from .. import gensim
     gensim.check_exit_targets(ctx, 'C01')
     return ('Structural clause of C01: for each of the 21 Operator members '
